@@ -263,9 +263,24 @@ for _pid, (_t, _x) in ROUND5.items():
         CLAIMS[_pid] = (_tech + _t, _text + " " + _x, _ref)
 
 ROUND6 = {
+ "C01": ("; name agreement of same-typed positional arguments over all calls", "Round 6: both counts of the print gate are taken inside the coordinator loop (R1.2 clause); journal entries carry the receive time in every rendering (R1.6 <- C09 R9.11); no call passes two same-typed named arguments in each other's place (R1.8)."),
+ "C02": ("", "Round 6: a message is kept after a block-bounded Done only on the end-of-file side of the end-of-file test (R2.9 clause)."),
+ "C03": ("", "Round 6: equal bounds are a valid window and relative bounds keep their base (R3.10 <- C14 R14.3/R14.5); every reader converts bounds and record times without losing the instant (R3.12); R3.9 follows the modification time through date arithmetic; R3.2 tolerates a second predicate use that cannot affect messages inside the window."),
+ "C04": ("", "Round 6: the decision to re-parse the stage-1 messages uses the pattern count taken before the pattern analysis (R4.15); zone values reach the readers under their own parameter (R4.16)."),
+ "C05": ("", "Round 6: a buffered writer over the unpacked temporary file is flushed, and the result looked at, before success is reported (R5.15; lifted by C09 R9.6 and C10 R10.6); the composite archive|member name is split at its last separator (R5.16); BlockReader::filesz() returns the decoded size for every decoded container, for text and record files alike (R5.17)."),
  "C06": ("; effect analysis of every loop and iterator chain over a randomly seeded HashMap/HashSet", "Round 6: no output and no choice depends on the iteration order of a randomly seeded hash container (R6.12, whole program)."),
- "C08": ("", "Round 6: the candidate record layouts are walked in an order that does not change from run to run (R8.17 lift of C06 R6.12); layout arms of different OS families name the ut_type through different tables (R8.18)."),
- "C05": ("", "Round 6: a buffered writer over the unpacked temporary file is flushed, and the result looked at, before success is reported (R5.15; lifted by C09 R9.6 and C10 R10.6)."),
+ "C07": ("", "Round 6: Summary accessors that panic on the Dummy placeholder are called only behind a failed is_dummy() test (R7.15); the emergency counter of the journal field enumeration is incremented on every way round the loop (R7.16)."),
+ "C08": ("", "Round 6: the candidate record layouts are walked in an order that does not change from run to run (R8.17 lift of C06 R6.12); layout arms of different OS families name the ut_type through different tables (R8.18); record files are sized by their decoded length in every container (R8.7 <- C05 R5.17); every print_fixedstruct variant returns Ok only with its buffer written out (R8.19)."),
+ "C09": ("; effect analysis of the field enumeration loops (borrowed data across FFI calls), image of the errno mapping", "Round 6: the DateTime stored in a rendered entry derives from the receive time only (R9.11); no borrowed field bytes are kept across calls of the field enumeration (R9.12); the enumeration bound is above journald's per-entry field limit (R9.13); every ErrorKind the reader compares with can be produced by its errno mapping (R9.14)."),
+ "C10": ("", "Round 6: the window bounds are the ones the user wrote (R10.9 <- C03 R3.10); the flush and split rules of C05 at the extraction sites (R10.6 <- R5.15, R5.16)."),
+ "C11": ("", "Round 6: the text-log processor combines no window bound with the file's modification time, also through date arithmetic (R11.11 <- C03 R3.9)."),
+ "C12": ("", "Round 6: whether a message is cut at the end of block zero does not depend on where the block ends (R12.2 <- C02 R2.9)."),
+ "C13": ("", "Round 6: the zone of the datetime field never derives from --tz-offset (R13.17); prepend zone and format reach the printers under their own parameter (R13.16)."),
+ "C14": ("; reachability through thread-local initialisers and clap's derive", "Round 6: a bare date that is built directly becomes midnight in the --tz-offset zone (R14.2 clause); the start instant is captured before the first read of standard input (R14.14)."),
+ "C16": ("", "Round 6: the name of a tar member that is classified comes from the archive entry alone (R16.13)."),
+ "C17": ("", "Round 6: the window search of the streaming stage runs once per call and bisects plain files (R17.9, with the lift of C03 R3.3)."),
+ "C18": ("", "Round 6: outside the signal handler the temp-file list only grows - no positional removal (R18.9)."),
+ "C19": ("; decoding of the const-evaluated format templates", "Round 6: a summary label that names a counter is followed by the value of that counter (R19.13)."),
 }
 for _pid, (_t, _x) in ROUND6.items():
     if _pid in CLAIMS:
